@@ -222,7 +222,11 @@ IaLoop(f, g, ks, j, shift, find, repl) ==
   ELSE LET key == ks[j] + shift s == g[ks[j]] IN
     IF key \in DOMAIN f THEN
       LET k == Len(s.add) IN
-      IF key = shift /\ s.add # << >> /\ Len(f[key].rem) >= k /\ ValueEq(SubSeq(f[key].rem, 1, k), s.add) THEN
+      IF key = shift /\ s.add # << >> /\ Len(f[key].rem) >= k /\ ValueEq(SubSeq(f[key].rem, 1, k), s.add)
+         /\ LET ending == SubSeq(f[key].rem, 1, k)        \* merge only when my precedence among them is the incoming one
+                active == SelectSeq(SettingsAt(shift + 1, f, shift - 1), LAMBDA x : \E q \in DOMAIN ending : ending[q][1] = x[1])
+            IN Len(active) = k /\ \A q \in 1..k : active[q][1] = ending[q][1]
+      THEN
         LET nrem == SubSeq(f[key].rem, k + 1, Len(f[key].rem))
             nf == s.add
             nr == SubSeq(f[key].rem, 1, k)
@@ -501,10 +505,38 @@ TabOf(fl) == [k \in {fl[i][1] : i \in DOMAIN fl} |->
 AllInsts(f) == UNION {{f[k].add[i][1] : i \in DOMAIN f[k].add} \cup {f[k].rem[i][1] : i \in DOMAIN f[k].rem} : k \in DOMAIN f}
 HasTab(v) == v.k \in {"S", "A"}
 
+\* an operand of += / join as the code sees it: AnsiString/AnsiStr bring their table, a plain str is parsed
+OperandOk(u) == HasTab(u) \/ (u.k = "P" /\ (NoEsc(u.t) \/ InputStrict(u.t)))
+OperandTab(u) == IF HasTab(u) THEN <<u.t, TabOf(u.f)>>
+                 ELSE IF NoEsc(u.t) THEN <<u.t, EmptyTab>> ELSE CPSetAnsiStr(u.t)
+
+\* AnsiString.join: copy (or parse) the first operand, then += each of the others
+RECURSIVE JoinFold(_, _, _)
+JoinFold(ops, k, acc) ==
+  IF k > Len(ops) THEN acc
+  ELSE LET o == OperandTab(ops[k]) IN JoinFold(ops, k + 1, CPIAdd(acc[1], acc[2], o[1], o[2]))
+CPJoin(ops) == IF ops = << >> THEN <<(<< >>), EmptyTab>> ELSE JoinFold(ops, 2, OperandTab(ops[1]))
+
+\* _split / splitlines: each piece of str.split is located again with str.find from a running index (plus the
+\* separator length when there is a separator) and cut with __getitem__
+RECURSIVE LocLoop(_, _, _, _, _)
+LocLoop(text, pieces, k, idx, skip) ==
+  IF k > Len(pieces) THEN << >>
+  ELSE LET at == PyFind(text, pieces[k], <<idx>>, << >>)
+       IN << <<at, at + Len(pieces[k])>> >> \o LocLoop(text, pieces, k + 1, at + Len(pieces[k]) + skip, skip)
+CPCut(text, f, lo, hi) == CPGetItem(text, f, SliceIdx(<<lo>>, Len(text), 0), SliceIdx(<<hi>>, Len(text), Len(text)))
+PiecesFollow(ps, text, f, ranges) ==
+  Len(ps) = Len(ranges) /\
+  \A k \in DOMAIN ranges : LET g == CPCut(text, f, ranges[k][1], ranges[k][2]) IN ps[k].t = g[1] /\ TabOf(ps[k].f) = g[2]
+
 DriftClauses(e, pre, post) ==
   IF e.out = "ok" /\ e.op = "new" /\ e.a.src = 0 /\ e.a.S = << >> /\ ~NoEsc(e.a.text) /\ InputStrict(e.a.text) THEN
      LET w == post[e.res[1]] g == CPSetAnsiStr(e.a.text) IN
      Cl("drift.parse", TRUE, w.t = g[1] /\ SameTab(TabOf(w.f), g[2]))
+  ELSE IF e.out = "ok" /\ e.op = "join" /\ HasResult(e) /\ e.a.items # << >>
+          /\ \A k \in DOMAIN e.a.items : OperandOk(pre[e.a.items[k]]) THEN
+     LET w == ResultOf(e, post) ops == [k \in DOMAIN e.a.items |-> pre[e.a.items[k]]] g == CPJoin(ops) IN
+     Cl("drift.join", \E k \in DOMAIN ops : ops[k].f # << >>, w.t = g[1] /\ SameTab(TabOf(w.f), g[2]))
   ELSE IF e.out # "ok" \/ e.r = 0 \/ ~HasTab(pre[e.r]) THEN None
   ELSE LET v == pre[e.r] n == Len(v.t) f == TabOf(v.f) IN
   CASE e.op = "apply" /\ HasResult(e) ->
@@ -525,10 +557,21 @@ DriftClauses(e, pre, post) ==
              j == IF e.a.i < 0 THEN n + e.a.i ELSE e.a.i
              g == CPGetItem(v.t, f, j, j + 1)
          IN Cl("drift.getitem", f # EmptyTab, w.t = g[1] /\ TabOf(w.f) = g[2])
-    [] e.op \in {"add", "iadd"} /\ HasResult(e) /\ HasTab(pre[e.a.other]) ->
-         LET w == ResultOf(e, post) u == pre[e.a.other]
-             g == CPIAdd(v.t, f, u.t, TabOf(u.f))
-         IN Cl("drift.iadd", f # EmptyTab \/ u.f # << >>, w.t = g[1] /\ SameTab(TabOf(w.f), g[2]))
+    [] e.op \in {"add", "iadd"} /\ HasResult(e) /\ OperandOk(pre[e.a.other]) ->
+         LET w == ResultOf(e, post) u == OperandTab(pre[e.a.other])
+             g == CPIAdd(v.t, f, u[1], u[2])
+         IN Cl("drift.iadd", f # EmptyTab \/ u[2] # EmptyTab, w.t = g[1] /\ SameTab(TabOf(w.f), g[2]))
+    [] e.op \in {"split", "splitlines"} /\ e.res # << >> /\ PyOk(e) ->
+         LET skip == IF e.op = "split" /\ e.a.sep # << >> THEN Len(e.a.sep[1]) ELSE 0 IN
+         Cl("drift.split", f # EmptyTab, PiecesFollow(Pieces(e, post), v.t, f, LocLoop(v.t, PyText(e), 1, 0, skip)))
+    [] e.op = "partition" /\ Len(e.res) = 3 /\ e.a.sep # << >> ->
+         LET i == IF e.a.m = "partition" THEN Find(v.t, e.a.sep, 0, n) ELSE RFind(v.t, e.a.sep, 0, n)
+             ps == Pieces(e, post)
+         IN Cl("drift.partition", f # EmptyTab,
+               IF i >= 0 THEN PiecesFollow(ps, v.t, f, << <<0, i>>, <<i, i + Len(e.a.sep)>>, <<i + Len(e.a.sep), n>> >>)
+               ELSE ps[1].t = v.t /\ TabOf(ps[1].f) = f /\ ps[2].f = << >> /\ ps[3].f = << >>)
+    [] e.op = "iter" /\ Len(e.res) = n ->
+         Cl("drift.iter", f # EmptyTab, PiecesFollow(Pieces(e, post), v.t, f, [k \in 1..n |-> <<k - 1, k>>]))
     [] e.op = "pad" /\ HasResult(e) /\ Len(e.a.fill) = 1 /\ e.a.m \in {"ljust", "rjust", "center"} ->
          LET w == ResultOf(e, post)
              g == CPPad(v.t, f, e.a.m, e.a.width, e.a.fill[1], e.a.extend = 1)
